@@ -999,6 +999,7 @@ PATTERNS = ["multi_input", "input_npu_and_cpu", "residual", "lut_reuse", "deep_s
 # families defined in netgen_ext.py (imported lazily: that module imports this one)
 EXT_PATTERNS = ["lut_mixed", "shape_out", "transpose_perm", "ew_fork", "fc1_two_core", "near_scale"]
 EXT_PATTERNS += ["multi_out_cpu", "slice_masks", "rank_sweep"]          # round 5: gen_multiout.py, gen_ssmask.py, gen_ranksweep.py
+EXT_PATTERNS += ["io_passthrough", "resize_cascade"]                    # round 6: gen_iopass.py, gen_resizecasc.py
 PATTERNS += EXT_PATTERNS
 
 
